@@ -188,7 +188,8 @@ impl LiveNode {
         let my_name = w.name(me);
         let frames = self.node.settle(&consensus_frame_needs_ack);
         let commits = self.node.commits();
-        let _ = self.node.mempool_cmds();
+        let mempool_cmds = self.node.mempool_cmds();
+        let asked_mempool = mempool_cmds.iter().any(|c| matches!(c, mempool::ConsensusMempoolMessage::Synchronize(..)));
         let panics = self.node.rt.panics();
         let pre = self.snap.clone();
         let pre_hist = self.hist.clone();
@@ -707,7 +708,7 @@ impl LiveNode {
                 wit.proposal_after_timeout = true;
             }
             if !acceptable {
-                let reacted = !frames.is_empty() || !commits.is_empty() || post != pre || post_stored != pre_stored;
+                let reacted = !frames.is_empty() || !commits.is_empty() || post != pre || post_stored != pre_stored || asked_mempool;
                 if reacted {
                     self.odd.insert(d);
                     find("C04", "reacted-to-invalid-proposal".into(), format!("n{} reacted to a proposal that is invalid or not from the round's leader: {}", me, uni.desc_block(b)));
